@@ -111,6 +111,18 @@ CLAIMED = {
              'std::regex_search modelled as an oracle (answers from Python re on a common pattern subset); the C++ overload/template '
              'machinery selecting duck-typed vs typed matchers is exercised, not modelled.',
         technique='Lean 4 proof (structural induction over matcher trees) + generated-program correspondence'),
+    'C18': dict(
+        text='Theorems: print never reaches the streaming of a null pointer at any nesting depth (print_defined, mutual induction over the '
+             'value tree; null_prints_nullptr); every leaf (streamable, null, hex-dumped) is rendered independently of the prior stream state '
+             'and the state is restored (leaf_default_format_and_restore); with no pending width every value prints as the stateless '
+             'structural rendering `{ a, b }`, recursively, and leaves the state unchanged (print_structure); printer<T> wins over operator<< '
+             '(printer_wins); hex dump is byte-exact: parsing it back yields every byte in order, for objects of any size '
+             '(hexBytes_roundtrip, hexdump_layout). Found and repaired: F14 (null leaf written without the sentry).',
+        ref='DESIGN.md §4 C18', engine='lean-print',
+        note='Trusted: Lean kernel; axioms propext/Classical.choice/Quot.sound; statements in Props/C18.lean; h_print harness; the standard '
+             'stream\'s formatting of int/string under default state and its padding of string literals (`pad`) are modelled, not verified; '
+             'the SFINAE dispatch (is_output_streamable / is_collection / is_null_comparable) is exercised by a fixed type family, not modelled.',
+        technique='Lean 4 proof (mutual structural induction over printable values; hexdump round trip) + model/implementation correspondence'),
 }
 
 ALL = ['C%02d' % i for i in range(1, 21)]
@@ -143,6 +155,8 @@ def main():
                    baseline_off_cmd='cmake --build /repo/_build -j16 && /repo/_build/test/self_test',
                    source_commits=[], add_only=True),
         engines=[
+            dict(name='lean-print', path='lean/TrompModel/Model/Print.lean', serves_properties=['C18'],
+                 kind_free_text='Lean 4 model of print/stream_sentry/hexdump + theorems (Props/C18.lean); harness/print calls trompeloeil::print'),
             dict(name='lean-matcher', path='lean/TrompModel/Model/Matcher.lean', serves_properties=['C10'],
                  kind_free_text='Lean 4 model of scalar matchers/combinators + theorems (Props/C10.lean); tools/matchergen.py emits C++ trees'),
             dict(name='lean-range', path='lean/TrompModel/Model/Range.lean', serves_properties=['C11'],
